@@ -33,6 +33,11 @@ CHECKS = {
             'invalidate_hnsw_cache of the matching collection on all success paths (vector-preserving metadata rewrites exempt), '
             'R06b the cache has two writers only and readers take index and key list from one guard acquisition',
             'must-pass-through on MIR CFG, def-use slices for key provenance, who-may-write via guard kinds'),
+    'C07': ('§3 C07', 'R07a every slab is saved and restored by name in the v3 snapshot and the compressed snapshot reaches every slab in use, '
+            'R07b the compressed writer/reader variant tables of ScalarValue compose to the identity with payloads copied not rebuilt, '
+            'R07c save functions write a derived temp sibling and rename it into place last, only after all writes succeeded, '
+            'R07d header byte layout agrees between writer and reader and every loader passes validate',
+            'aggregate / field-set agreement, enum dispatch tables, cut-reachability, constant extraction from MIR'),
     'C08': ('§3 C08', 'R08a every slab field that SlabRouter::clear wipes and that code outside the router writes through is written '
             'again on the restore path of TensorStore::restore_from_bytes (clear set ⊆ refill set over fields in use, across all workspace crates)',
             'field read/write sets over the call graph, whole-workspace who-uses-field scan'),
